@@ -69,6 +69,22 @@ def build_cell(d):
     return cell
 
 
+def build_net(ds):
+    """synapse-free network of the described cells (passive, Leak), parameters per compartment"""
+    cells = []
+    for d in ds:
+        comp = jx.Compartment()
+        cells.append(jx.Cell([jx.Branch([comp] * kk) for kk in d["ncomp"]], parents=d["parents"]))
+    net = jx.Network(cells)
+    net.insert(Leak())
+    for ci, d in enumerate(ds):
+        v = net.cell(ci)
+        v.set("radius", np.asarray(d["r"])); v.set("length", np.asarray(d["l"]))
+        v.set("axial_resistivity", np.asarray(d["ra"])); v.set("capacitance", np.asarray(d["cm"]))
+        v.set("Leak_gLeak", np.asarray(d["g"])); v.set("Leak_eLeak", np.asarray(d["e"])); v.set("v", np.asarray(d["v"]))
+    return net
+
+
 def apply_desc(mod, d, offset=0):
     n = sum(d["ncomp"])
     view = mod
